@@ -55,13 +55,22 @@ type fakeStream struct {
 	chunks [][]byte
 	// stall: when the script is exhausted the peer goes silent (Read blocks until the read
 	// deadline, then fails) instead of ending the stream.
-	stall      bool
-	readDL     time.Time
-	readArmed  bool
-	writeArmed bool
-	dlCalls    int
-	closes     int
-	closedCh   chan struct{}
+	stall bool
+	// last: the Read that hands out the final bytes of the script returns them together with io.EOF
+	// (n > 0, io.EOF), as quic-go does when data and FIN arrive together.
+	last bool
+	// hold: when set, the first Read waits until the channel is closed (the peer has opened the
+	// stream but not sent anything yet).
+	hold chan struct{}
+	// stall bookkeeping: whether a read deadline was armed when the read on the silent peer began,
+	// and whether the read had to be given up because no deadline was ever armed.
+	stallBlocked, stallArmedAtBlock, stallNoDeadline bool
+	readDL                                           time.Time
+	readArmed                                        bool
+	writeArmed                                       bool
+	dlCalls                                          int
+	closes                                           int
+	closedCh                                         chan struct{}
 	// writer side
 	wmode   string // full | fail | short
 	wlimit  int
@@ -78,6 +87,13 @@ func newFakeStream(c *hcase, chunks [][]byte) *fakeStream {
 }
 
 func (s *fakeStream) Read(p []byte) (int, error) {
+	if s.hold != nil {
+		select {
+		case <-s.hold:
+		case <-s.closedCh:
+		case <-time.After(waitLimit):
+		}
+	}
 	s.mtx.Lock()
 	if s.closes > 0 {
 		s.mtx.Unlock()
@@ -86,6 +102,10 @@ func (s *fakeStream) Read(p []byte) (int, error) {
 	if len(s.chunks) > 0 && len(s.chunks[0]) == 0 {
 		// an empty chunk is a (0, nil) read
 		s.chunks = s.chunks[1:]
+		if len(s.chunks) == 0 && s.last && !s.stall {
+			s.mtx.Unlock()
+			return 0, io.EOF
+		}
 		s.mtx.Unlock()
 		return 0, nil
 	}
@@ -95,20 +115,43 @@ func (s *fakeStream) Read(p []byte) (int, error) {
 			return 0, io.EOF
 		}
 		dl, armed := s.readDL, s.readArmed
-		s.mtx.Unlock()
-		var tc <-chan time.Time
-		if armed {
-			t := time.NewTimer(time.Until(dl))
-			defer t.Stop()
-			tc = t.C
+		if !s.stallBlocked {
+			s.stallBlocked, s.stallArmedAtBlock = true, armed
 		}
+		s.mtx.Unlock()
+		if !armed {
+			// no read deadline: on a real stream this Read would block for as long as the peer
+			// stays silent. Give the code a moment to arm one after all, then give up.
+			deadline := time.Now().Add(300 * time.Millisecond)
+			for time.Now().Before(deadline) && !armed {
+				select {
+				case <-s.closedCh:
+					return 0, io.ErrClosedPipe
+				case <-time.After(2 * time.Millisecond):
+				}
+				s.mtx.Lock()
+				dl, armed = s.readDL, s.readArmed
+				s.mtx.Unlock()
+			}
+			if !armed {
+				s.mtx.Lock()
+				s.stallNoDeadline = true
+				s.mtx.Unlock()
+				return 0, errors.New("verif: stalled read was never given a deadline")
+			}
+		}
+		t := time.NewTimer(time.Until(dl))
+		defer t.Stop()
 		select {
-		case <-tc:
+		case <-t.C:
 			return 0, os.ErrDeadlineExceeded
 		case <-s.closedCh:
 			return 0, io.ErrClosedPipe
 		case <-time.After(waitLimit):
-			return 0, errors.New("verif: stalled read was never given a deadline")
+			s.mtx.Lock()
+			s.stallNoDeadline = true
+			s.mtx.Unlock()
+			return 0, errors.New("verif: stalled read outlived its deadline")
 		}
 	}
 	if len(p) == 0 {
@@ -120,6 +163,10 @@ func (s *fakeStream) Read(p []byte) (int, error) {
 		s.chunks = s.chunks[1:]
 	} else {
 		s.chunks[0] = s.chunks[0][n:]
+	}
+	if len(s.chunks) == 0 && s.last && !s.stall {
+		s.mtx.Unlock()
+		return n, io.EOF
 	}
 	s.mtx.Unlock()
 	return n, nil
@@ -271,6 +318,7 @@ type delivery struct {
 	unread            []byte
 	armed             bool
 	sameStream        bool // GetStream() is the stream object that was handed to the controller
+	ctxDone           bool // the context handed to HandleMountedStream was already done
 	handlerCase       int  // the case whose directive resolved the handler that was called
 }
 
@@ -289,6 +337,10 @@ type hcase struct {
 	via           string // direct | pump
 	openerNote    string // for round-trip cases: what the opener wrote and on which link
 	gate          chan struct{}
+	last          bool          // the stream returns its final bytes together with io.EOF
+	hold          chan struct{} // the stream delivers nothing until this is closed
+	free          bool          // outcome not determined (link replaced under the stream): monitors only
+	ctxMayEnd     bool          // the link context may legitimately end while the stream is handled
 
 	mtx         sync.Mutex
 	dirs        []dirRec
@@ -331,6 +383,7 @@ func (h *streamHandler) HandleMountedStream(ctx context.Context, ms link.Mounted
 		lr:          string(ms.GetLink().GetRemotePeer()),
 		uuid:        ms.GetLink().GetLinkUUID(),
 		handlerCase: h.c.id,
+		ctxDone:     ctx.Err() != nil,
 	}
 	owner := h.c
 	if fs, ok := ms.GetStream().(*fakeStream); ok {
@@ -533,7 +586,11 @@ func q(b []byte) string {
 }
 
 func (e *engine) opLine(c *hcase) string {
-	return fmt.Sprintf("incoming.handle max=%d local=%s remote=%s uuid=%d env=%s chunks=%s", e.max, lib.Hex([]byte(c.local)), lib.Hex([]byte(c.remote)), c.uuid, c.beh, lib.HexList(c.chunks))
+	l := ""
+	if c.last {
+		l = " last=1"
+	}
+	return fmt.Sprintf("incoming.handle max=%d local=%s remote=%s uuid=%d env=%s chunks=%s%s", e.max, lib.Hex([]byte(c.local)), lib.Hex([]byte(c.remote)), c.uuid, c.beh, lib.HexList(c.chunks), l)
 }
 
 // start asks the model, launches the real HandleIncomingStream for the case and returns a channel that
@@ -544,6 +601,11 @@ func (e *engine) start(c *hcase, s *side, pumpLink *fakeLink) <-chan string {
 	c.model = e.m.Query(c.op)
 	c.strm = newFakeStream(c, c.chunks)
 	c.strm.stall = c.stall
+	c.strm.last = c.last
+	c.strm.hold = c.hold
+	if c.last {
+		c.gen += "/final-bytes-with-EOF"
+	}
 	e.register(c)
 	rctx, rcancel := context.WithCancel(e.ctx)
 	if c.beh == "nohandler" {
@@ -574,14 +636,22 @@ func (e *engine) start(c *hcase, s *side, pumpLink *fakeLink) <-chan string {
 			}
 			deadline := time.After(wait)
 			timedOut := false
-			if lib.KV(c.model, "deliv") != "none" {
+			if c.free {
+				// either end state will do
+				select {
+				case <-c.deliveredCh:
+				case <-c.strm.closedCh:
+				case <-deadline:
+					timedOut = true
+				}
+			} else if lib.KV(c.model, "deliv") != "none" {
 				select {
 				case <-c.deliveredCh:
 				case <-deadline:
 					timedOut = true
 				}
 			}
-			if lib.KV(c.model, "closed") == "1" {
+			if !c.free && lib.KV(c.model, "closed") == "1" {
 				select {
 				case <-c.strm.closedCh:
 				case <-deadline:
@@ -690,7 +760,28 @@ func (e *engine) finish(c *hcase, done <-chan string) {
 			set("malformed header but the stream was handed to a handler " + where)
 		}
 	}
+	if c.stall {
+		c.strm.mtx.Lock()
+		blocked, armedAtBlock, noDL := c.strm.stallBlocked, c.strm.stallArmedAtBlock, c.strm.stallNoDeadline
+		c.strm.mtx.Unlock()
+		if blocked && !armedAtBlock {
+			set("the peer went silent mid-header and the read began with NO read deadline armed on the stream: nothing bounds the wait for the header " + where)
+		}
+		if noDL {
+			set("the read on a silent peer was never bounded by a deadline (the stream would stay open for ever) " + where)
+		}
+	}
+	if closed && c.strm.armed() {
+		// (harmless on a closed stream, but it shows the clearing of the deadline moved)
+		e.rep.Branches["closed.armed"]++
+	}
 	for _, d := range dels {
+		if d.armed {
+			set("the stream was handed to the handler with a deadline still armed (the header deadline would cut the application's reads) " + where)
+		}
+		if d.ctxDone && !c.ctxMayEnd {
+			set("the handler was called with a context that was already done " + where)
+		}
 		if d.peer != R {
 			set(fmt.Sprintf("handler received a stream whose peer is %s but the link's remote is %s %s", q([]byte(d.peer)), q([]byte(R)), where))
 		}
@@ -750,6 +841,14 @@ func (e *engine) finish(c *hcase, done <-chan string) {
 	}
 	if c.via == "pump" {
 		e.rep.Branches["via.pump"]++
+	}
+	if c.last {
+		e.rep.Branches["handle.last."+lib.KV(model, "br")]++
+	}
+	if c.free {
+		// the outcome depends on a race the property says nothing about: only the monitors judge
+		e.rep.Compare(op, impl, impl, br, "incoming.handle:"+c.gen, mon)
+		return
 	}
 	e.rep.Compare(op, stripBr(model), impl, br, "incoming.handle:"+c.gen, mon)
 }
@@ -890,7 +989,20 @@ func (e *engine) runHandlePopulation(full bool) {
 		chunks := e.sprinkleEmpty(e.rng.Chunk(sb, mode))
 		l, r := e.freshPeers()
 		c := e.newCase(l, r, behaviours[i%len(behaviours)], chunks, "honest", expect, pid, payload)
+		c.last = i%3 == 1
 		e.runHandle(c, sides[i%2])
+		if i < 6 {
+			// sentinel: the opener wrote the header and closed; header and FIN arrive in one read
+			l, r = e.freshPeers()
+			hb := marshalRef(pid)
+			cs := [][]byte{hb}
+			if i%2 == 1 {
+				cs = [][]byte{hb[:1+i%3], hb[1+i%3:]}
+			}
+			c = e.newCase(l, r, "accepts", cs, "header-then-end", expect, pid, nil)
+			c.last = true
+			e.runHandle(c, sides[i%2])
+		}
 	}
 	// 2. every way of splitting the 4-byte prefix, for headers whose body is shorter than, equal to and
 	// longer than what the prefix read already pulled in, with and without payload
@@ -909,6 +1021,7 @@ func (e *engine) runHandlePopulation(full bool) {
 					beh = "handlererr"
 				}
 				c := e.newCase(l, r, beh, chunks, "prefix-split", "ok", pid, payload)
+				c.last = k%2 == 0
 				e.runHandle(c, sides[k%2])
 			}
 		}
@@ -925,6 +1038,12 @@ func (e *engine) runHandlePopulation(full bool) {
 			}
 			c := e.newCase(l, r, "accepts", e.rng.Chunk(hdr[:k], e.rng.Intn(3)), "truncated-at-every-offset", expect, pid, nil)
 			e.runHandle(c, sides[k%2])
+			if k > 0 {
+				l, r = e.freshPeers()
+				c = e.newCase(l, r, "accepts", e.rng.Chunk(hdr[:k], e.rng.Intn(3)), "truncated-at-every-offset", expect, pid, nil)
+				c.last = true
+				e.runHandle(c, sides[k%2])
+			}
 		}
 	}
 	// 4. the malformed / unusual classes of the framing engine, under a handler that WOULD accept
@@ -947,6 +1066,7 @@ func (e *engine) runHandlePopulation(full bool) {
 			beh = "handlererr"
 		}
 		c := e.newCase(l, r, beh, chunks, mc.Gen, mc.Expect, mc.WantPid, mc.WantRest)
+		c.last = i%2 == 1
 		e.runHandle(c, sides[i%2])
 	}
 	// 4b. history independence: the outcome for a header must not depend on the streams handled before
@@ -1242,6 +1362,9 @@ func (e *engine) runOpen() {
 			if os.closed() {
 				set("OpenMountedStream returned a stream it had closed")
 			}
+			if os.armed() {
+				set("OpenMountedStream returned a stream with a deadline still armed (the header write deadline would cut the application's I/O)")
+			}
 		}
 		switch m.name {
 		case "full":
@@ -1316,18 +1439,139 @@ func (e *engine) runOpen() {
 
 func validUTF8(b []byte) bool { return utf8.Valid(b) }
 
+// runLinkScenarios: streams on really established links whose situation changes under them.
+//   - two streams on ONE link, the first silent: the second must be dispatched and delivered while
+//     the first is still waiting for its header (the accept pump must not serialise streams);
+//   - a link whose uuid is taken over by a NEW link to another remote while a stream accepted from the
+//     old link is still waiting for its header: whatever happens to that stream, a lookup or delivery
+//     for it names the OLD link's peers, and a stream on the new link names the new link's;
+//   - a link whose remote peer is the controller's own peer (on the controller configured without a
+//     peer ID and on the one configured with it) is closed, not listed, and yields nothing.
+func (e *engine) runLinkScenarios() {
+	sides := []*side{e.A, e.B}
+	mkStream := func(tag string, k int) ([]byte, []byte, [][]byte) {
+		pid := append(e.honestPid(3+e.rng.Intn(8)), []byte(fmt.Sprintf("/%s%d.%d", tag, k, e.nextID))...)
+		payload := e.rng.Bytes(1 + e.rng.Intn(8))
+		return pid, payload, e.rng.Chunk(append(marshalRef(pid), payload...), e.rng.Intn(4))
+	}
+	for round := 0; round < 2*e.a.Scale; round++ {
+		for si, Y := range sides {
+			// --- two streams on one link
+			_, remote := e.freshPeers()
+			e.nextUU++
+			fl := newFakeLink(e.nextUU, Y.peerID, remote)
+			_, rel, bad := e.establish(Y, fl, true)
+			if bad != "" {
+				e.rep.Compare("incoming.scenario two-streams", "established", bad, "open.setup", "incoming.open:setup", bad)
+				continue
+			}
+			pid1, pay1, ch1 := mkStream("slow", round)
+			pid2, pay2, ch2 := mkStream("fast", round)
+			c1 := e.newCase(fl.local, fl.remote, "accepts", ch1, "two-streams-one-link/first-silent", "ok", pid1, pay1)
+			c2 := e.newCase(fl.local, fl.remote, "accepts", ch2, "two-streams-one-link/second", "ok", pid2, pay2)
+			c1.uuid, c2.uuid = fl.uuid, fl.uuid
+			c1.hold = make(chan struct{})
+			d1 := e.start(c1, Y, fl)
+			d2 := e.start(c2, Y, fl)
+			e.finish(c2, d2) // while the first stream has not sent a byte
+			close(c1.hold)
+			e.finish(c1, d1)
+			rel()
+			e.rep.Branches["scenario.two-streams"]++
+
+			// --- uuid taken over by a link to another remote
+			_, r1 := e.freshPeers()
+			_, r2 := e.freshPeers()
+			e.nextUU++
+			uu := e.nextUU
+			l1 := newFakeLink(uu, Y.peerID, r1)
+			_, rel1, bad := e.establish(Y, l1, true)
+			if bad != "" {
+				e.rep.Compare("incoming.scenario replaced-link", "established", bad, "open.setup", "incoming.open:setup", bad)
+				continue
+			}
+			pidA, payA, chA := mkStream("old", round)
+			cA := e.newCase(l1.local, l1.remote, "accepts", chA, "stream-on-replaced-link/old", "any", pidA, payA)
+			cA.uuid, cA.free, cA.ctxMayEnd = uu, true, true
+			cA.hold = make(chan struct{})
+			dA := e.start(cA, Y, l1)
+			// (the pump has taken the stream when its first Read is pending; bounded, synchronisation only)
+			for dl := time.Now().Add(2 * time.Second); len(l1.acceptQ) > 0 && time.Now().Before(dl); {
+				time.Sleep(50 * time.Microsecond)
+			}
+			l2 := newFakeLink(uu, Y.peerID, r2)
+			_, rel2, bad := e.establish(Y, l2, si == 0)
+			if bad != "" {
+				e.rep.Compare("incoming.scenario replaced-link", "new link established", bad, "open.setup", "incoming.open:setup", bad)
+				close(cA.hold)
+				e.finish(cA, dA)
+				rel1()
+				continue
+			}
+			close(cA.hold)
+			pidB, payB, chB := mkStream("new", round)
+			cB := e.newCase(l2.local, l2.remote, "accepts", chB, "stream-on-replaced-link/new", "ok", pidB, payB)
+			cB.uuid = uu
+			e.finish(cB, e.start(cB, Y, l2))
+			e.finish(cA, dA)
+			rel2()
+			rel1()
+			e.rep.Branches["scenario.replaced-link"]++
+
+			// --- self link
+			e.nextUU++
+			self := newFakeLink(e.nextUU, Y.peerID, Y.peerID)
+			before := transport_controller.VerifOpsDone()
+			Y.handler.HandleLinkEstablished(self)
+			for dl := time.Now().Add(waitLimit); transport_controller.VerifOpsDone() == before && time.Now().Before(dl); {
+				time.Sleep(50 * time.Microsecond)
+			}
+			select {
+			case <-self.closeCh:
+			case <-time.After(2 * time.Second):
+			}
+			mon := ""
+			self.mtx.Lock()
+			cl := self.closed
+			self.mtx.Unlock()
+			if !cl {
+				mon = "a link whose remote peer is the controller's own peer was not closed"
+			}
+			for _, l := range Y.ctrl.GetPeerLinks(Y.peerID) {
+				if l.GetUUID() == self.uuid {
+					mon = "a link whose remote peer is the controller's own peer is listed among the links to that peer"
+				}
+			}
+			cfg := "configured with its peer ID"
+			if si == 0 {
+				cfg = "configured without a peer ID"
+			}
+			if mon != "" {
+				mon += " (controller " + cfg + ")"
+				Y.handler.HandleLinkLost(self)
+			}
+			e.rep.Compare(fmt.Sprintf("incoming.selflink side=%d #%d", si, round), "closed", "closed", "scenario.self-link", "incoming.selflink", mon)
+		}
+	}
+}
+
 // ---------------------------------------------------------------------------------------------
 
-func (e *engine) newSide(pk crypto.PrivKey, pid peer.ID) *side {
+// newSide builds a real transport controller for the peer pid; lookup is the peer ID the controller
+// is configured with ("" = whichever peer the bus has).
+func (e *engine) newSide(pk crypto.PrivKey, pid peer.ID, lookup peer.ID) *side {
 	s := &side{peerID: pid, tpt: &fakeTransport{pid: pid}}
 	handlerCh := make(chan struct{})
 	ctor := func(cctx context.Context, le *logrus.Entry, pkey crypto.PrivKey, h transport.TransportHandler) (transport.Transport, error) {
+		if got, err := peer.IDFromPrivateKey(pkey); err != nil || got != pid {
+			panic("verif: the controller resolved another local peer than the one intended")
+		}
 		s.handler = h
 		close(handlerCh)
 		return s.tpt, nil
 	}
 	info := controller.NewInfo("verif/fake-transport", semver.MustParse("0.0.1"), "fake transport")
-	s.ctrl = transport_controller.NewController(e.le, e.tb.Bus, info, pid, false, ctor)
+	s.ctrl = transport_controller.NewController(e.le, e.tb.Bus, info, lookup, false, ctor)
 	go func() { _ = e.tb.Bus.ExecuteController(e.ctx, s.ctrl) }()
 	select {
 	case <-handlerCh:
@@ -1365,6 +1609,9 @@ func (e *engine) setup() func() {
 	if err != nil {
 		panic(err)
 	}
+	// side A is configured WITHOUT a peer ID (the common configuration: "use the node's peer"); it is
+	// constructed while the testbed's peer is the only one on the bus. Side B names its peer.
+	e.A = e.newSide(tb.PrivKey, tb.PeerID, "")
 	_, _, refB, err := bus.ExecOneOff(ctx, tb.Bus, resolver.NewLoadControllerWithConfig(confB), nil, nil)
 	if err != nil {
 		panic(err)
@@ -1373,8 +1620,7 @@ func (e *engine) setup() func() {
 	if err != nil {
 		panic(err)
 	}
-	e.A = e.newSide(tb.PrivKey, tb.PeerID)
-	e.B = e.newSide(pkB, pidB)
+	e.B = e.newSide(pkB, pidB, pidB)
 	e.max = int(transport_controller.VerifStreamEstablishMaxPacketSize())
 	return func() {
 		relH()
@@ -1385,21 +1631,24 @@ func (e *engine) setup() func() {
 }
 
 func (e *engine) run() {
-	e.rep.Rule = "real Controller.HandleIncomingStream (direct and through the accept pump of established links) on a real bus with two transport controllers, fake links with per-case peer IDs (binary, non-UTF-8, empty, equal, swapped between links) and scripted chunked streams: honest headers (pid length classes × chunkings × payloads × lookup answers), all 8 splits of the 4-byte prefix, truncation at every offset, the malformed classes of the framing engine, lookup deadline / no handler / stalled peer, overlapping lookups differing in one field; real OpenMountedStream on mounted links yielded by real EstablishLinkWithPeer directives with failing / short writers, fed back through the receiving side; distinct = distinct op line"
+	e.rep.Rule = "real Controller.HandleIncomingStream (direct and through the accept pump of established links) on a real bus with two transport controllers, fake links with per-case peer IDs (binary, non-UTF-8, empty, equal, swapped between links) and scripted chunked streams: honest headers (pid length classes × chunkings × payloads × lookup answers), all 8 splits of the 4-byte prefix, truncation at every offset, the malformed classes of the framing engine, lookup deadline / no handler / stalled peer, overlapping lookups differing in one field; real OpenMountedStream on mounted links yielded by real EstablishLinkWithPeer directives with failing / short writers, fed back through the receiving side; streams that return their final bytes together with io.EOF (header+FIN in one read, truncation at every offset); controller A configured without a peer ID; two streams on one established link (first silent), a stream on a link whose uuid is taken over by a link to another remote, self links; distinct = distinct op line"
 	release := e.setup()
 	defer release()
 	full := e.a.Prop == "C07"
 	e.rep.Require("handle.ok.accepts", "handle.ok.handlererr", "handle.ok.wrongtype", "handle.ok.resolvererr",
 		"handle.ok.deadline", "handle.ok.nohandler", "handle.io", "handle.badPrefix", "handle.badLen", "handle.badProto", "handle.badPid",
 		"open.full", "open.fail", "open.short", "open.openerr", "roundtrip.ok", "via.pump",
-		"pair.differ-remote", "pair.differ-local", "pair.differ-pid", "pair.swapped-peers")
+		"pair.differ-remote", "pair.differ-local", "pair.differ-pid", "pair.swapped-peers",
+		"handle.last.ok", "handle.last.io", "scenario.two-streams", "scenario.replaced-link", "scenario.self-link")
 	t0 := time.Now()
 	e.runHandlePopulation(full)
 	t1 := time.Now()
 	e.runPairs()
 	t2 := time.Now()
 	e.runOpen()
-	e.rep.Notes = append(e.rep.Notes, fmt.Sprintf("phases: handle %.1fs pairs %.1fs open %.1fs", t1.Sub(t0).Seconds(), t2.Sub(t1).Seconds(), time.Since(t2).Seconds()))
+	t3 := time.Now()
+	e.runLinkScenarios()
+	e.rep.Notes = append(e.rep.Notes, fmt.Sprintf("phases: handle %.1fs pairs %.1fs open %.1fs scenarios %.1fs", t1.Sub(t0).Seconds(), t2.Sub(t1).Seconds(), t3.Sub(t2).Seconds(), time.Since(t3).Seconds()))
 	e.mtx.Lock()
 	stray := append([]dirRec(nil), e.stray...)
 	e.mtx.Unlock()
